@@ -368,7 +368,14 @@ impl PackageBuilder {
         modified_at: Timestamp,
         options: FileOptions,
     ) -> Result<(), Error> {
-        let dest = options.destination;
+        // repeated separators do not name a different file: keep one spelling per path, so that the
+        // order of the file list and the detection of duplicates follow the path itself
+        let mut dest = String::with_capacity(options.destination.len());
+        for c in options.destination.chars() {
+            if c != '/' || !dest.ends_with('/') {
+                dest.push(c);
+            }
+        }
         if !dest.starts_with("./") && !dest.starts_with('/') {
             return Err(Error::InvalidDestinationPath {
                 path: dest,
